@@ -57,7 +57,8 @@ class Ref:
 
 
 def run_case(item):
-    kind, variant, singles, order, extra, mtag = item
+    kind, variant, singles, order, extra, mtag = item[:6]
+    maxasg = item[6] if len(item) > 6 else None     # large model: bounded number of assignments
     from adcgen import Operators, GroundState
     from adcgen.indices import get_symbols
     from sympy import S
@@ -91,12 +92,14 @@ def run_case(item):
     out = sympify(out).expand()
     res["out"] = str(out)[:300]
     res["n_terms"] = len(out.args) if out.is_Add else (0 if out is S.Zero else 1)
-    oc = compare(ref, out, target, model, timeout_ms=TIMEOUT, seed=seed())
+    oc = compare(ref, out, target, model, timeout_ms=TIMEOUT, seed=seed(), max_assignments=maxasg)
     res.update(oc.as_dict())
     res["witness"] = oc.witness
+    if maxasg:
+        res["api"] += f" [first {maxasg} non-trivial target assignments]"
     if oc.status == "equal" and out is not S.Zero:
         oc2 = compare(ref, perturb(out, seed() + order), target, model,
-                      timeout_ms=TIMEOUT, seed=seed(), replay=False)
+                      timeout_ms=TIMEOUT, seed=seed(), replay=False, max_assignments=maxasg)
         res["guard"] = oc2.status
     return res
 
@@ -144,7 +147,7 @@ def main():
         p = json.load(open(a.replay))
         it = p["item"]
         it[4] = tuple(it[4]) if isinstance(it[4], list) else it[4]
-        it[5] = tuple(it[5])
+        it[5] = tuple(it[5])  # model
         r = run_case(tuple(it))
         print(json.dumps({k: r.get(k) for k in ("status", "api", "out", "witness")}, indent=1, default=str))
         return 1 if r.get("status") == "differ" else 0
@@ -179,6 +182,12 @@ def main():
                         if variant == "re" and npart == 2 and n > 1 and quick:
                             continue
                         items.append(("expec", variant, singles, n, npart, mt))
+    # third-order singles couple to the second-order triples (3o3v) and third-order doubles to the
+    # second-order quadruples (4o4v, bounded number of target assignments): both vanish in 2o2v
+    for variant in ("mp", "re"):
+        for singles in (False, True):
+            items.append(("amplitude", variant, singles, 3, ("ph", "ia"), (3, 3)))
+        items.append(("amplitude", variant, False, 3, ("pphh", "ijab"), (4, 4), 3 if quick else 12))
     if not quick:
         # fourth order expectation value: first order with two overlap factors in the norm factor
         items.append(("expec", "mp", False, 4, 1, (2, 2)))
